@@ -306,8 +306,20 @@ def gen_region(rng, rows):
         if c not in keep:
             keep.append(c)
     rng.shuffle(keep)
+    # round 7: cells that are part of the grid but carry the mask flag 0 (as in forecast files with a mask column): they belong
+    # to the region object, not to the region — events inside them lie outside.  The two bounding-box corners stay active.
+    masked = []
+    if rng.random() < 0.35:
+        masked = [c for c in keep if c not in [(0, 0), (nx - 1, ny - 1)] and rng.random() < 0.35]
+        keep = [c for c in keep if c not in masked]
     origins = [(dec_grid(i0 + i, dh_text), dec_grid(j0 + j, dh_text)) for i, j in keep]
-    return dict(dh=dh, dh_text=dh_text, origins=[[x, y] for x, y in origins])
+    reg = dict(dh=dh, dh_text=dh_text, origins=[[x, y] for x, y in origins])
+    if masked:
+        reg["masked"] = [[dec_grid(i0 + i, dh_text), dec_grid(j0 + j, dh_text)] for i, j in masked]
+    # (h) COPIES BEFORE USE: the region object is replaced by a copy / deep copy / pickle image / dict image before it is used
+    if rng.random() < 0.4:
+        reg["copy"] = rng.choice(COPY_FORMS)
+    return reg
 
 
 def place_events_in_region(rng, evs, reg):
@@ -316,7 +328,10 @@ def place_events_in_region(rng, evs, reg):
     dh = reg["dh"]
     out = []
     for e in evs:
-        if rng.random() < 0.7:
+        if reg.get("masked") and rng.random() < 0.25:
+            ox, oy = rng.choice(reg["masked"])                 # inside a cell with mask flag 0: outside the region
+            out.append((e[0], e[1], float(oy + dh * rng.choice([0.5, 0.25, 0.0])), float(ox + dh * rng.choice([0.5, 0.25, 0.0])), e[4], e[5]))
+        elif rng.random() < 0.7:
             ox, oy = rng.choice(reg["origins"])
             k = rng.choice(["corner", "centre", "upper-in", "upper-on", "band", "left-out", "far", "edge-x", "edge-y"])
             if k == "corner":
@@ -400,15 +415,86 @@ def gen_history(rng, tier):
                 sts = [gen_stmt(rng, rows) for _ in range(m)]
                 form = rng.choice(["string", "list", "tuple"]) if m == 1 else rng.choice(["list", "tuple"])
             calls.append(dict(kind="filter", target=target, in_place=in_place, form=form, stmts=sts, cf=rng.randrange(3)))
+        # round 7 — what happens to the target BEFORE the judged call:
+        #   (h) it is replaced by a copy / deep copy / pickle image of itself (same rows, filters, region expected);
+        #   (i) a statement list the library rejects (good statements followed by a malformed one) is tried on it, the exception is
+        #       caught: the unchanged code rejects atomically — every object must still hold its rows for the legal calls that follow
+        k2 = rng.random()
+        if k2 < 0.12:
+            calls[-1]["pre"] = dict(copy=rng.choice(["copy", "deepcopy", "pickle"]))
+        elif k2 < 0.27:
+            good = [gen_stmt(rng, rows) for _ in range(rng.choice([1, 1, 2]))]
+            calls[-1]["pre"] = dict(reject=dict(good=[g["text"] for g in good], bad=rng.choice(REJECTED_STATEMENTS), in_place=rng.random() < 0.7,
+                                                form=rng.choice(["list", "tuple"])))
         if not in_place:
             nobj += 1   # if the call raises no object is created; targets are re-mapped modulo the live count at run time
-    return dict(events=[list(r) for r in rows], filters0=filters0, filters0_form=filters0_form, region0=region0, calls=calls)
+    return dict(events=[list(r) for r in rows], filters0=filters0, filters0_form=filters0_form, region0=region0, calls=calls,
+                numstate=rng.random() < 0.25,     # (k) the judged calls run under numpy.errstate(all='raise') and a 3-digit decimal context
+                subclass=rng.random() < 0.2)      # (j) the catalogs are instances of a user subclass that defines __len__ (empty = falsy)
 
 
 # ----------------------------------------------------------------------------- execution of one history
-def build_region(reg):
+# statements no reader of 'attribute op value' can accept: unknown operator, unknown column, a value that is no number, a missing value,
+# an impossible date
+REJECTED_STATEMENTS = ["magnitude => 4.0", "magnitud3 >= 4.0", "depth < abc", "magnitude >=", "datetime >= 2010-02-30 00:00:00",
+                       "latitude ?? 3", "origin_time > twelve", "longitude <"]
+COPY_FORMS = ["copy", "deepcopy", "pickle", "dict"]
+COPY_PROBE = {}          # form -> True / reason it is left out (probed once per run on the tree under test)
+
+
+def copy_image(obj, form):
+    import copy
+    import pickle
+    if form == "copy":
+        return copy.copy(obj)
+    if form == "deepcopy":
+        return copy.deepcopy(obj)
+    if form == "pickle":
+        return pickle.loads(pickle.dumps(obj))
+    if form == "dict":
+        return type(obj).from_dict(obj.to_dict())
+    raise AssertionError(form)
+
+
+def _plain_region(reg):
+    """the region object of a region description; cells listed under `masked` are polygons of the grid with mask flag 0"""
     from csep.core.regions import CartesianGrid2D
-    return CartesianGrid2D.from_origins(numpy.array(reg["origins"], dtype=float), dh=reg["dh"])
+    active = [list(map(float, o)) for o in reg["origins"]]
+    if not reg.get("masked"):
+        return CartesianGrid2D.from_origins(numpy.array(active, dtype=float), dh=reg["dh"])
+    full = CartesianGrid2D.from_origins(numpy.array(active + [list(map(float, o)) for o in reg["masked"]], dtype=float), dh=reg["dh"])
+    act = {(float(x), float(y)) for x, y in active}
+    flags = numpy.array([1 if (float(o[0]), float(o[1])) in act else 0 for o in full.origins()])
+    return CartesianGrid2D(full.polygons, reg["dh"], mask=flags)
+
+
+def probe_copy_forms():
+    """which copy forms the tree under test supports for a region with masked cells: the image must answer get_masked like the
+    original ON THE UNCHANGED TREE's own terms (an exception or another answer here leaves the form out of the generators; a
+    form that is supported must then give the original's results everywhere)"""
+    if COPY_PROBE:
+        return COPY_PROBE
+    reg = dict(dh=0.5, origins=[[0.0, 0.0], [0.5, 0.0], [0.0, 0.5], [1.0, 0.5]], masked=[[0.5, 0.5], [1.0, 0.0]])
+    for form in COPY_FORMS:
+        try:
+            r = _plain_region(reg)
+            c = copy_image(r, form)
+            c.get_masked(numpy.array([0.25]), numpy.array([0.25]))
+            COPY_PROBE[form] = True
+        except Exception as e:          # the unchanged tree cannot make this image of a region: the form is left out
+            COPY_PROBE[form] = f"{type(e).__name__}: {e}"[:120]
+    return COPY_PROBE
+
+
+def build_region(reg):
+    r = _plain_region(reg)
+    form = reg.get("copy")
+    # the dict image of a region drops the mask flags on the UNCHANGED tree (to_dict has no mask entry; C14 / C18's subject):
+    # that form is used for regions without flagged cells only.  Forms the tree under test cannot produce at all (an exception
+    # in the probe) are left out; a form it can produce must behave like the original.
+    if form and probe_copy_forms().get(form) is True and not (form == "dict" and reg.get("masked")):
+        r = copy_image(r, form)
+    return r
 
 
 def events_of(case):
@@ -432,7 +518,7 @@ def run_history(run, drv, pending, case):
     region_cache = {}
 
     def region_obj(reg):
-        key = enc_region(reg)
+        key = enc_region(reg) + "|" + repr(reg.get("masked")) + "|" + str(reg.get("copy"))
         if key not in region_cache:
             region_cache[key] = build_region(reg)
         return region_cache[key]
@@ -442,6 +528,28 @@ def run_history(run, drv, pending, case):
         kw["filters"] = py_stmts(case["filters0"], case["filters0_form"])
     if case["region0"] is not None:
         kw["region"] = region_obj(case["region0"])
+    if case.get("subclass"):
+        class UserCatalog(CSEPCatalog):
+            """a user's catalog class: same constructor, a length, one more attribute"""
+            project = "user"
+
+            def __len__(self):
+                return self.event_count
+        CSEPCatalog = UserCatalog
+        run.count("user-subclass-with-__len__")
+    import contextlib
+    import decimal as _decimal
+
+    @contextlib.contextmanager
+    def numeric_state():
+        if not case.get("numstate"):
+            yield
+            return
+        with numpy.errstate(divide="raise", invalid="raise", over="raise"), _decimal.localcontext() as ctx:
+            ctx.prec = 3
+            yield
+    if case.get("numstate"):
+        run.count("numeric-state:errstate-raise+decimal-prec-3")
     cat0 = CSEPCatalog(data=events_of(case), **kw)
     objs = [cat0]
     snaps = [snapshot(cat0)]
@@ -464,6 +572,33 @@ def run_history(run, drv, pending, case):
         if call["kind"] == "spatial" and call["region"] is None and not tst.get("rk", True):
             run.count("skipped:stored-region-not-fixed-by-the-property")
             continue
+        pre = call.get("pre") or {}
+        if pre.get("copy"):
+            try:
+                objs[tg] = tobj = copy_image(tobj, pre["copy"])
+                run.count("pre:target replaced by its " + pre["copy"] + " image")
+            except Exception as e:
+                run.count(f"pre:{pre['copy']} image of a catalog not supported ({type(e).__name__})")
+            if snapshot(tobj) != snaps[tg]:
+                run.oracle_failure(case, f"call {ci}: the {pre['copy']} image of catalog object {tg} does not hold the rows of the original")
+                return
+        if pre.get("reject"):
+            rj = pre["reject"]
+            arg = list(rj["good"]) + [rj["bad"]]
+            keep_rows = [list(s) for s in snaps]
+            try:
+                tobj.filter(tuple(arg) if rj["form"] == "tuple" else arg, in_place=rj["in_place"])
+                rejected = False
+            except Exception:
+                rejected = True
+            if not rejected:
+                run.count("pre:malformed list accepted by the implementation (history ends, nothing judged)")
+                break
+            if [snapshot(o) for o in objs] != keep_rows:
+                run.oracle_failure(case, f"call {ci}: filter({arg}, in_place={rj['in_place']}) was rejected with an exception, but catalog "
+                                         f"objects no longer hold their rows: the caller catches the exception and goes on with legal calls")
+                return
+            run.count("pre:rejected statement list, exception caught, history goes on")
         before = [list(s) for s in snaps]
         exc = None
         try:
@@ -473,12 +608,13 @@ def run_history(run, drv, pending, case):
             if call["kind"] == "filter":
                 arg = py_stmts(call["stmts"], call["form"])
                 arg_copy = list(arg) if isinstance(arg, list) else arg
-                if cf == 1:
-                    res = tobj.filter(arg, call["in_place"])
-                elif cf == 2:
-                    res = tobj.filter(statements=arg, in_place=call["in_place"])
-                else:
-                    res = tobj.filter(arg, in_place=call["in_place"])
+                with numeric_state():
+                    if cf == 1:
+                        res = tobj.filter(arg, call["in_place"])
+                    elif cf == 2:
+                        res = tobj.filter(statements=arg, in_place=call["in_place"])
+                    else:
+                        res = tobj.filter(arg, in_place=call["in_place"])
                 run.count(f"callform:filter:{('kw-in_place', 'positional', 'all-keywords')[cf]}")
                 # CALLER-OWNED INPUT: the statement list handed over is the caller's
                 if isinstance(arg, list) and arg != arg_copy:
@@ -487,12 +623,13 @@ def run_history(run, drv, pending, case):
             else:
                 reg = call["region"]
                 robj = region_obj(reg) if reg is not None else None
-                if cf == 1:
-                    res = tobj.filter_spatial(robj, False, call["in_place"])
-                elif cf == 2:
-                    res = tobj.filter_spatial(region=robj, update_stats=False, in_place=call["in_place"])
-                else:
-                    res = tobj.filter_spatial(robj, in_place=call["in_place"])
+                with numeric_state():
+                    if cf == 1:
+                        res = tobj.filter_spatial(robj, False, call["in_place"])
+                    elif cf == 2:
+                        res = tobj.filter_spatial(region=robj, update_stats=False, in_place=call["in_place"])
+                    else:
+                        res = tobj.filter_spatial(robj, in_place=call["in_place"])
                 run.count(f"callform:filter_spatial:{('kw-in_place', 'positional', 'all-keywords')[cf]}")
         except Exception as e:          # which exception class rejects a call is not part of the property
             exc = type(e).__name__
@@ -553,12 +690,15 @@ def run_history(run, drv, pending, case):
             snaps = before
             break
         if exc:
-            # after an exception raised by the call itself the objects are unconstrained (the property promises nothing
-            # there): the history ends here; the model is compared on the state BEFORE this call and on the raised flag
+            # "nothing to filter by" is rejected ATOMICALLY by the unchanged code (the check stands in front of everything else):
+            # the caller catches the exception and goes on — every object must still hold its rows (round 7, class i)
             flags.append("0")
             run.count("exception")
+            if [snapshot(o) for o in objs] != before:
+                run.oracle_failure(case, f"call {ci} was rejected ({exc_text}) but changed the rows of a catalog")
+                return
             snaps = before
-            break
+            continue
         flags.append("1")
         is_new = all(res is not o for o in objs)
         if call["in_place"] and res is not tobj:
